@@ -15,7 +15,7 @@ RULE = ('logs and books whose names range over letters of several scripts, digit
 ASSUMPTIONS = ['the independent reader accepts LF and CRLF record ends (Go writes LF)']
 
 SPECIAL = [b'a,b', b'say "hi"', b'x,"y",z', b'tab\there', b'semi;colon', b'sp  ace', b'\xc2\xa0nbsp-first', b'q"', b"it's", b'50%', b'a\rb', b'(a)', b'\\.', b'\xd0\xbf\xd0\xb8\xd1\x80\xd0\xbe\xd0\xb3, \xd1\x81 \xd0\xbc\xd1\x8f\xd1\x81\xd0\xbe', b'\xe7\xb1\xb3,\xe9\xa3\xaf']
-BOUNDARY = ['0.125', '0.375', '0.0625', '0.1875', '2.5e-3', '0.0005', '1e-7', '1048576.5', '-0.125', '-0.0005', '123456789.125', '0.005', '0.015', '0.025', '1e15']
+BOUNDARY = ['0.125', '0.375', '0.0625', '0.1875', '2.5e-3', '0.0005', '1e-7', '1048576.5', '-0.125', '-0.0005', '123456789.125', '0.005', '0.015', '0.025', '1e15', '0.0007', '0.0008', '-0.0007', '0.00051', '0.00099', '-0.00099', '0.0049', '0.0051', '-0.0051']
 
 
 def canon(v):
@@ -53,6 +53,11 @@ def gen(g, count):
         rec = names(g, g.r.randint(1, 4))
         leaves = names(g, g.r.randint(1, 4)) + [b'calories']
         rec = [x for x in rec if x not in leaves]
+        if rec and g.r.random() < 0.2:
+            # a recipe whose name continues another recipe's name (`bread`, `bread/white`, `bread white`): rows are ordered by recipe, then element
+            ext = rec[0] + g.r.choice([b'/', b' ', b'-', b'!']) + g.word(1, 5, 0).encode()
+            if g.wf_name(ext) and ext not in rec and ext not in leaves:
+                rec.append(ext)
         book = [(n, [(g.r.choice(leaves + rec[:i]), qty(g)) for _ in range(g.r.randint(0, 4))]) for i, n in enumerate(rec)]
         # huge and small terms that cancel in one resolved amount (1e21 + 15.625 - 1e21) are absorbed by float64 and rightly so;
         # the model computes exactly, so such books are outside what can be compared: take the huge literals out of them
